@@ -1,1 +1,6 @@
+import Got.Model.WaitClose
 /- property theorems of C16 (only theorems + non-vacuity examples live here) -/
+open Got.Model.WaitClose
+
+/-- placeholder while the proofs are being written: the initial state is not closed -/
+theorem C16_init_not_closed : init.state ≠ wcClosed := by decide
